@@ -455,6 +455,24 @@ func (mux *ServeMux) ErrorReports() <-chan *ErrorReport {
 // in the incoming message. If the special "ALL" handler is registered
 // it is used as a catch-all. Otherwise an ErrorReport is sent out.
 func (mux *ServeMux) ServeDIAM(c Conn, m *Message) {
+	// The lock covers the lookup only. Handlers may run for a long time:
+	// holding it while they do would let a pending Handle (a writer) keep
+	// the messages of every other connection from being dispatched.
+	h, err := mux.handler(m)
+	if err != nil {
+		mux.Error(&ErrorReport{
+			Conn:    c,
+			Message: m,
+			Error:   err,
+		})
+		return
+	}
+	h.ServeDIAM(c, m)
+}
+
+// handler returns the handler registered for the message, or the error
+// to report when there is none.
+func (mux *ServeMux) handler(m *Message) (Handler, error) {
 	mux.mu.RLock()
 	defer mux.mu.RUnlock()
 	dcmd, err := m.Dictionary().FindCommand(
@@ -463,8 +481,7 @@ func (mux *ServeMux) ServeDIAM(c Conn, m *Message) {
 
 	if err != nil {
 		// Try the catch-all.
-		mux.serveIdx(ALL_CMD_INDEX, c, m)
-		return
+		return mux.handlerIdx(ALL_CMD_INDEX)
 	}
 
 	idx := CommandIndex{
@@ -473,8 +490,7 @@ func (mux *ServeMux) ServeDIAM(c Conn, m *Message) {
 		m.Header.CommandFlags&RequestFlag == RequestFlag}
 	_, ok := mux.idxMap[idx]
 	if ok {
-		mux.serveIdx(idx, c, m)
-		return
+		return mux.handlerIdx(idx)
 	}
 
 	var cmd string
@@ -483,45 +499,29 @@ func (mux *ServeMux) ServeDIAM(c Conn, m *Message) {
 	} else {
 		cmd = dcmd.Short + "A"
 	}
-	mux.serve(cmd, c, m)
-}
-
-func (mux *ServeMux) serveIdx(cmd CommandIndex, c Conn, m *Message) {
-	entry, ok := mux.idxMap[cmd]
-	if ok {
-		entry.h.ServeDIAM(c, m)
-		return
-	}
-	// Try catch-all.
-	entry, ok = mux.idxMap[ALL_CMD_INDEX]
-	if ok {
-		entry.h.ServeDIAM(c, m)
-		return
-	}
-	mux.Error(&ErrorReport{
-		Conn:    c,
-		Message: m,
-		Error:   fmt.Errorf("unhandled message for index: %+v", cmd),
-	})
-}
-
-func (mux *ServeMux) serve(cmd string, c Conn, m *Message) {
 	entry, ok := mux.m[cmd]
 	if ok {
-		entry.h.ServeDIAM(c, m)
-		return
+		return entry.h, nil
 	}
 	// Try catch-all.
 	entry, ok = mux.idxMap[ALL_CMD_INDEX]
 	if ok {
-		entry.h.ServeDIAM(c, m)
-		return
+		return entry.h, nil
 	}
-	mux.Error(&ErrorReport{
-		Conn:    c,
-		Message: m,
-		Error:   fmt.Errorf("unhandled message for '%s'", cmd),
-	})
+	return nil, fmt.Errorf("unhandled message for '%s'", cmd)
+}
+
+func (mux *ServeMux) handlerIdx(cmd CommandIndex) (Handler, error) {
+	entry, ok := mux.idxMap[cmd]
+	if ok {
+		return entry.h, nil
+	}
+	// Try catch-all.
+	entry, ok = mux.idxMap[ALL_CMD_INDEX]
+	if ok {
+		return entry.h, nil
+	}
+	return nil, fmt.Errorf("unhandled message for index: %+v", cmd)
 }
 
 // Handle registers the handler for the given code.
